@@ -90,6 +90,9 @@ type replayFile struct {
 	} `json:"replay"`
 }
 
+// Replaying is set while HandleReplay re-runs a stored schedule (scenario-level memoisation must be off then).
+var Replaying bool
+
 // HandleReplay implements `--replay <file>`: re-runs the stored schedule 5 times in this
 // process (GOMAXPROCS=1) and reports whether the violation reproduces. Returns true if handled.
 func HandleReplay(run *ev.Run, jobs []sched.Job, find func(name string) sched.Scenario, b sched.Bounds) bool {
@@ -107,6 +110,7 @@ func HandleReplay(run *ev.Run, jobs []sched.Job, find func(name string) sched.Sc
 		return false
 	}
 	runtime.GOMAXPROCS(1)
+	Replaying = true
 	raw, err := os.ReadFile(file)
 	if err != nil {
 		fmt.Fprintln(os.Stderr, err)
